@@ -27,6 +27,8 @@ var panicAllow = []struct{ fn, msg, reason string }{
 
 func checkC02(c *Ctx) {
 	r := c.R
+	r.Rule("R12.1", "(shared with C12) the call returns: the termination decision table (only Panic / Fatal terminate, and only when interrupts are allowed)")
+	r.Rule("R17.6", "(shared with C17) the call returns: the level tag computation cannot fail (every tag literal / derived tag of width n has n characters; the fallback pads before it cuts)")
 	r.Rule("R02.1", "exactly one emission per call: on every path of every spine function at most one spine call is made, none inside a loop (the 'at least one' half is R01.2's no-extra-guard rule, re-checked here for the spine below the gate)")
 	r.Rule("R02.2", "one Write per selected destination with the whole payload: the sink passes its []byte parameter itself to exactly one Write; the fan-out LWs.Write calls Write once per member with its own parameter; the package's writer wrappers forward Write unbuffered")
 	r.Rule("R02.3", "the payload ends with a newline: the argument of the sink is pc.Bytes() taken right after End(true), End's newline branch appends '\\n' last, and the blank-line shortcut passes exactly []byte{'\\n'}")
@@ -49,12 +51,15 @@ func checkC02(c *Ctx) {
 		c02Counts(c, p, m)
 		c02Sink(c, p, m)
 		destinationsOnlyInSink(c, p, m, "R02.2")
+		errorValuesNotCompared(c, p, m, "R02.5")
 		writerSetNilSafe(c, p, m, "R02.5")
 		c02Newline(c, p, m)
 		c02NoFailure(c, p, m, tags)
 		searchIndexStepBack(c, p, m)
 		c02Pool(c, p, m)
 		noDiagnosticOnSuccess(c, p, m)
+		c12Decision(c, p, m)
+		c17Tags(c, p, m)
 		constBounds(c, p, m)
 		nilContextSafe(c, p, m, "R02.9")
 		callerArgsUntouched(c, p, "R10.7")
@@ -335,6 +340,23 @@ func c02Newline(c *Ctx, p *Prog, m *Model) {
 				}
 				if prm, isP := la.(*ssa.Parameter); isP && prm.Parent() == caller {
 					okLvl = true
+				}
+				// a level constant on the edge where the record's own level was found equal to it
+				if k, isC := constInt(la); isC && !okLvl {
+					for _, g := range guardsOf(site.Block()) {
+						cond, neg := normCond(g.If.Cond)
+						bo, isB := cond.(*ssa.BinOp)
+						if !isB || bo.Op != token.EQL || (g.Succ == 0) == neg {
+							continue
+						}
+						for _, pr := range [][2]ssa.Value{{bo.X, bo.Y}, {bo.Y, bo.X}} {
+							if k2, isC2 := constInt(pr[1]); isC2 && k2 == k {
+								if _, isRec := isFieldLoadOf(strip(pr[0]), "PrintCtx", "lvl"); isRec {
+									okLvl = true
+								}
+							}
+						}
+					}
 				}
 				sevN[key]++
 				r.Check(okLvl, "R02.3", fmt.Sprintf("%s[severity#%d]", key, sevN[key]), p.Pos(instrPos(site)), "the destination is selected by the record's own severity", "the severity handed to the sink is "+m.valDesc(la)+", not the record's own: the record (or the blank line) goes to the destination of another severity")
